@@ -683,6 +683,8 @@ pub fn make(prop: &str) -> Option<SCheck> {
                 restores: false,
                 priority_mix: true,
                 corner: false,
+                zero: true,
+                zero_pct: 35,
                 ..d
             },
             nontrivial: |o| {
